@@ -92,7 +92,8 @@ def _flow_job(kw):
     def prepare(ev, runner):
         orig = ev.ext_calls["eko.matchings.nf_default"]
 
-        def nf_default(ev_, q2, atlas):
+        def nf_default(ev_, mu2, atlas):
+            q2 = mu2
             v = orig(ev_, q2, atlas)
             calls.append((S.num_norm(q2), atlas, v))
             return v
